@@ -12,6 +12,7 @@ pub mod c14;
 pub mod c15;
 pub mod c16;
 pub mod c17;
+pub mod c19;
 pub mod crashprops;
 
 use crate::seq::{self, Suite};
@@ -170,6 +171,12 @@ pub fn run_check(prop: &str, tier: &str) -> i32 {
         "C09" => {
             report.level = "fault_enumeration";
             c09::check(tier, budget, &mut report);
+        }
+        "C19" => {
+            c19::check(tier, budget * 0.5, &mut report);
+            // writers racing the coordinator's round under the controlled scheduler
+            let bound = if thorough { 3 } else { 2 };
+            schedprops::run_programs(c08::write_behind_programs(), bound, 4000, budget * 0.5, &schedprops::judge_linearizable, None, &["C19"], &mut report);
         }
         "C10" => {
             let deep = suites::layout_suites(thorough);
@@ -337,6 +344,7 @@ pub fn all_sched_programs() -> Vec<schedprops::Program> {
         v.extend(c07::programs(disk, thorough));
         v.extend(c08::programs(thorough));
         v.extend(c08::contention_programs(thorough));
+        v.extend(c08::write_behind_programs());
         v.extend(concprogs::scan_programs(thorough));
         v.extend(concprogs::limit_programs(thorough));
         v.extend(concprogs::sweep_programs(thorough));
